@@ -84,6 +84,71 @@ def isReached (F : Fns) (τ ε : Rat) : List GState → St → Res Bool
       | .error e => .error e
       | .ok b' => .ok (b || b')
 
+/-! ### `GoalRegion.translate_rotate(t, 0)` (goal.py:123-131 → `State.translate_rotate`, state.py:259-301)
+
+  A pure translation (angle 0: `cos = 1.0`, `sin = 0.0`, exact) moves every goal position by `t` and leaves the time,
+  orientation (`AngleInterval + 0`) and velocity intervals as they are; a state is carried along by moving its position.
+  The rotation part belongs to C05 (CRModel/Rigid.lean). -/
+
+/-- A goal state after `translate_rotate(t, 0)`. -/
+def GState.translate (t : CR.Geom.Pt) (g : GState) : GState := { g with pos := g.pos.map (·.translate t) }
+
+/-- The checked state carried along by the same translation. -/
+def St.translate (t : CR.Geom.Pt) (s : St) : St := { s with pos := s.pos.map (·.add t) }
+
+/-- `is_reached` on the goal region after `translate_rotate(t, 0)`. -/
+def isReachedMoved (F : Fns) (τ ε : Rat) (t : CR.Geom.Pt) (goals : List GState) (s : St) : Res Bool :=
+  isReached F τ ε (goals.map (GState.translate t)) s
+
+/-! ### goal shapes edited through their own setters (known finding C08/GoalRegion.is_reached/stale-after/…)
+
+  `Rectangle` computes its vertices and its polygon on first use and keeps them (shape.py:146-160, 45-49 `_shapely_polygon`);
+  the setters `length`, `width`, `center`, `orientation` (shape.py:102-145) store the new parameter and leave both in place.
+  `Polygon.vertices = …` (shape.py:375-379) replaces the vertices and the bounding box, not the polygon built by `__init__`.
+  `contains_point` reads the kept data, so a goal position edited after a first `is_reached` is answered for the OLD shape. -/
+
+/-- A `Rectangle` object: parameters plus the lazily computed vertex ring (`None` until first use). -/
+structure RectObj where
+  l : Rat
+  w : Rat
+  ctr : CR.Geom.Pt
+  c : Rat
+  s : Rat
+  cache : Option (List CR.Geom.Pt)
+  deriving Repr
+
+def RectObj.new (l w : Rat) (ctr : CR.Geom.Pt) (c s : Rat) : RectObj := ⟨l, w, ctr, c, s, none⟩
+
+/-- `Rectangle.contains_point`: the polygon of the (cached) vertices intersects the point; fills the cache. -/
+def RectObj.containsPoint (r : RectObj) (p : CR.Geom.Pt) : Bool × RectObj :=
+  let vs := r.cache.getD (CR.Geom.rectVerts r.l r.w r.ctr r.c r.s)
+  (CR.Geom.inRing vs p, { r with cache := some vs })
+
+/-- the setters as shipped: the cache is kept. -/
+def RectObj.setLength (r : RectObj) (l : Rat) : RectObj := { r with l := l }
+def RectObj.setWidth (r : RectObj) (w : Rat) : RectObj := { r with w := w }
+def RectObj.setCenter (r : RectObj) (ctr : CR.Geom.Pt) : RectObj := { r with ctr := ctr }
+def RectObj.setOrientation (r : RectObj) (c s : Rat) : RectObj := { r with c := c, s := s }
+
+/-- the setters as repaired (proposed_fixes/C08_shape_setters_refresh_cache.patch): the cache is dropped. -/
+def RectObj.setLengthR (r : RectObj) (l : Rat) : RectObj := { r with l := l, cache := none }
+def RectObj.setWidthR (r : RectObj) (w : Rat) : RectObj := { r with w := w, cache := none }
+def RectObj.setCenterR (r : RectObj) (ctr : CR.Geom.Pt) : RectObj := { r with ctr := ctr, cache := none }
+def RectObj.setOrientationR (r : RectObj) (c s : Rat) : RectObj := { r with c := c, s := s, cache := none }
+
+/-- A `Polygon` object: the vertices shown (they also give the bounding box) and the ring of the shapely polygon. -/
+structure PolyObj where
+  vs : List CR.Geom.Pt
+  ring : List CR.Geom.Pt
+  deriving Repr
+
+def PolyObj.new (vs : List CR.Geom.Pt) : PolyObj := ⟨vs, vs⟩
+/-- `Polygon.contains_point`: bounding box of the vertices, then the polygon. -/
+def PolyObj.containsPoint (q : PolyObj) (p : CR.Geom.Pt) : Bool := CR.Geom.inBBox q.vs p && CR.Geom.inRing q.ring p
+/-- `vertices` setter as shipped / as repaired. -/
+def PolyObj.setVertices (q : PolyObj) (vs : List CR.Geom.Pt) : PolyObj := { q with vs := vs }
+def PolyObj.setVerticesR (_q : PolyObj) (vs : List CR.Geom.Pt) : PolyObj := ⟨vs, vs⟩
+
 /-- `PlanningProblem.goal_reached`: scan the per-state answers from the last to the first. -/
 def goalReachedRev : List (Nat × Res Bool) → Res (Bool × Int)
   | [] => .ok (false, -1)
